@@ -254,6 +254,21 @@ func checkC15(c *checkCtx) {
 						}
 					}
 					if !hedged {
+						// a retry had been scheduled and not yet started when Cancel ran: the execution had work ahead
+						var lastSched, lastRetry int = -1, -1
+						for _, e := range v.Listeners {
+							if e.Seq < v.Cancel1.Seq && e.Seq > n.Enter.Seq {
+								if e.L == LRetryScheduled {
+									lastSched = e.Seq
+								}
+								if e.L == LRetry {
+									lastRetry = e.Seq
+								}
+							}
+						}
+						if lastSched > lastRetry {
+							workAhead = true
+						}
 						for i, fs := range v.FnStarts {
 							if fs.Seq > v.Cancel1.Seq && fs.Seq < n.Exit.Seq {
 								workAhead = true
